@@ -116,6 +116,18 @@ def make_job(method, st, noise, opts, d):
             raise
         spec = C.TaylorSpec(S, 0)
         orders_ok(S, spec, y1, Fraction(p), rep, tag, finding_prefix=finding)
+        # one step is a function of (t, y, h, increments) only: the same step after a warm-up step of another length on the same
+        # solver object gives the identical series (no state cached on the solver)
+        _, y1w, _, _ = C.run_step(S, method, options=opts, warmup=True)
+        a, b = C.detach_arr(y1), C.detach_arr(y1w)
+        bad = None
+        for i in range(S.d):
+            diff = a[0, i] - b[0, i]
+            if not diff.is_zero():
+                bad = diff
+                break
+        rep.poly_zero(f'{tag}/post.depends-only-on-its-arguments', bad if bad is not None else Poly(),
+                      statement='step(t, y, h, dW, U) after a previous step of a different length on the same solver == the step of a fresh solver')
         if d > 1:
             rep.bounded.append({'what': tag, 'bound': f'dimension-bounded: d={d}, m={m}, B=1; generic in f, g, base point, h, dW, U'})
     return Job(f'{method}-{st}-{noise}{"-gf" if opts else ""}-d{d}', fn)
